@@ -123,7 +123,9 @@ def expected_of(rec):
 def base_attrs(job, m, api, tol):
     return {"source": "catalog", "n": job["n"], "dtype": "c128" if job["complex"] else "f64", "m": m,
             "kdim": job["kdim"], "regime": regime_of(m, job["kdim"], job["n"]), "api": api, "tol": tol,
-            "x0": job["x0name"], "normal": job["normal"], "columns": 1}
+            "x0": job["x0name"], "normal": job["normal"], "columns": 1, "batch": "single",
+            # the Krylov space is exhausted before the iteration budget (and the dimension) is
+            "early_breakdown": 1 <= job["kdim"] < min(m, job["n"])}
 
 
 def single_run(job, m, api, tol, x0_shape="as_b"):
@@ -326,7 +328,7 @@ def random_specs(tier, seed):
     else:
         sizes = [1, 2, 3, 5, 10, 20, 40, 80, 150]
         fams = ["nonsym", "slow", "complex", "nonnormal", "normal"]
-        reps = 3
+        reps = 8
     i = 0
     for rep in range(reps):
         for n in sizes:
@@ -395,7 +397,9 @@ def observe_random(arg):
             if not well and it == "other":
                 n_skip += 1          # projected problem too ill conditioned for the predicate (normal equations)
             elif it != "optimal":
-                viol.append(Violation(PROP, "residual", case, dict(at0, column=j, iterate=it),
+                # converged: the Krylov optimum already solves the system; excess: how far the returned residual is off
+                extra = {"converged": bool(opt <= 1e-8 * r0n), "excess": "small" if res <= 1e-2 * r0n else "large"}
+                viol.append(Violation(PROP, "residual", case, dict(at0, column=j, iterate=it, **extra),
                                       f"||b - A x|| = {res:.6g} > least-squares optimum over the Krylov space {opt:.6g} "
                                       f"(||r0|| = {r0n:.6g}, Krylov dimension used {dim})", replay=rp))
             if res > r0n * (1 + 1e-6) + 1e-9:
